@@ -94,6 +94,7 @@ pub fn build_sweep(tier: Tier) -> Vec<IoRun> {
                 pad_to: None,
                 rlimit,
                 litter: Vec::new(),
+                cwd: 0,
                 crash_at: None,
             }],
         });
@@ -268,6 +269,7 @@ pub fn build_sweep(tier: Tier) -> Vec<IoRun> {
             pad_to: None,
             rlimit: None,
             litter,
+            cwd: 0,
             crash_at,
         };
         let mut push_ops = |ops: Vec<IoOp>, runs: &mut Vec<IoRun>| {
@@ -285,6 +287,17 @@ pub fn build_sweep(tier: Tier) -> Vec<IoRun> {
                     );
                 }
             }
+        }
+        // the same relative destination from two working directories, in both orders
+        for (a, b) in [(0u8, 1u8), (1, 0)] {
+            let mut o1 = mk(&w, PlanSpec::default(), vec![], None);
+            o1.target = Target::Relative("rel-cwd.out".into());
+            o1.cwd = a;
+            let mut o2 = o1.clone();
+            o2.cwd = b;
+            let mut o3 = o1.clone();
+            o3.pre = Pre::Garbage;
+            push_ops(vec![o1, o2, o3], &mut runs);
         }
         // crash and restart: the writer dies right before each of its system calls (plain and
         // dribbling device); afterwards a clean - smaller or equal - export goes to the same path
